@@ -226,7 +226,8 @@ def run_property(pid, tier, seed, root):
                 if it.kind == 'fn':
                     fn_table.append({'function': it.ident, 'file': it.file, 'line': it.src_line, 'unit': res.unit,
                                      'mode': mode or 'ok', 'back_end': 'verus/z3', 'text': 'extracted verbatim from /repo',
-                                     'under_contract': it.has_contract, 'loops': it.n_loops})
+                                     'under_contract': it.has_contract, 'loops': it.n_loops,
+                                     'counted': it.flags.get('count') != 'no'})
         if not res.functions:
             undecided.append(f'{res.unit}: no function results'); continue
         failed = {short(n, res.unit) for n in res.failed_functions()}
